@@ -5,6 +5,7 @@ import (
 	"context"
 	"fmt"
 	"sort"
+	"strconv"
 	"strings"
 	"sync"
 	"time"
@@ -41,11 +42,31 @@ func runDir(files map[string]string, order []string, ops []string) string {
 	var mu sync.Mutex
 	var lines []string
 	collectDone := make(chan struct{})
+	// "early:<n>" (first operation): the consumer pauses after n lines of the start-up read; meanwhile a write event
+	// for the live file arrives although nothing has changed (events during start-up are not changes to deliver)
+	pauseAfter := -1
+	if len(ops) > 0 && strings.HasPrefix(ops[0], "early:") {
+		pauseAfter, _ = strconv.Atoi(ops[0][6:])
+		ops = ops[1:]
+	}
+	paused := make(chan struct{})
+	resume := make(chan struct{})
 	go func() {
 		defer close(collectDone)
+		seen := 0
 		for {
+			if seen == pauseAfter {
+				pauseAfter = -1
+				close(paused)
+				select {
+				case <-resume:
+				case <-dirreader.VerifDone(r):
+					return
+				}
+			}
 			select {
 			case l := <-r.Lines():
+				seen++
 				mu.Lock()
 				if l == "" {
 					lines = append(lines, "-")
@@ -72,6 +93,20 @@ func runDir(files map[string]string, order []string, ops []string) string {
 		}
 	}
 	event := func(op fsnotify.Op) bool { return send(op) && send(fsnotify.Chmod) }
+	if pauseAfter >= 0 {
+		select {
+		case <-paused:
+			// the start-up read is stuck handing over its next line (or has finished): an event, no change
+			select {
+			case vw.Ch <- fsnotify.Event{Name: vmain, Op: fsnotify.Write}:
+			case <-time.After(200 * time.Millisecond):
+			}
+			time.Sleep(10 * time.Millisecond)
+		case <-r.InitFilesDone():
+		case <-time.After(dirTimeout):
+		}
+		close(resume)
+	}
 	select {
 	case <-r.InitFilesDone():
 	case <-dirreader.VerifDone(r):
